@@ -96,9 +96,17 @@ class Machine:
         self.max_disk = max(self.max_disk, len(self.disk))
 
     def key(self):
+        """Exact state identity (used where states must be told apart)."""
         return (self.phase, self.fwd, self.r, self.w_ics, self.w_deps,
                 tuple(sorted(self.ram.items())),
                 tuple(sorted(self.disk.items())), self.passes_done)
+
+    def fast_key(self):
+        """O(1) fingerprint for counting visited states: the stores enter via
+        their sizes and key sums (a store of n checkpoints would make the
+        exact key O(n) per step)."""
+        return hash((self.phase, self.fwd, self.r, self.w_ics, self.w_deps,
+                     len(self.ram), len(self.disk), self.passes_done))
 
     def more_passes_permitted(self):
         """Evaluated *after* an EndReverse has been counted."""
@@ -170,7 +178,7 @@ class Machine:
         else:
             self._fail(["C18", "C02"], "unknown_action",
                        f"not a checkpointing action: {a!r}", a)
-        self.state_keys.add(self.key())
+        self.state_keys.add(self.fast_key())
         return self.failures[nfail:]
 
     # ------------------------------------------------------------------
